@@ -1,6 +1,7 @@
 import AlgopyVerif.Proofs.PowerSeries
 import AlgopyVerif.Proofs.Analytic
 import AlgopyVerif.Model.Dtype
+import AlgopyVerif.Proofs.Lift
 /-!
 # C02 — arithmetic is exact truncated power-series arithmetic
 
@@ -11,8 +12,13 @@ import AlgopyVerif.Model.Dtype
 * dtype calculus: combining real with complex operands yields a complex result for
   every (operator × operand kind × order) — the finite table, by `decide`.
 
-The element-wise lifting over NumPy-broadcast shapes and operand kinds is the L2 model
-(`Model/Utpm.lean`), tied to the code by the C02 correspondence run.
+* operator level (`utpm_mul_value`, `utpm_div_value`, `utpm_add_sub_value`): for two UTPM arrays of shapes
+  `(D,P)+sx`, `(D,P)+sy` that broadcast to `(D,P)+s`, coefficient `d` of the result at direction `p`, element
+  `idx` is the `d`-th Taylor coefficient of the product / quotient / sum of the two operand curves at the
+  NumPy-broadcast positions `bidx sx idx`, `bidx sy idx`.
+
+Constant operands (scalars, plain arrays) are the L2 model functions `scalarOp`, `addConstArr`, `mulConstArr`,
+`rdivConst` (`Model/Utpm.lean`), tied to the code by the C02 correspondence run (no operator-level theorem).
 -/
 open PowerSeries Finset AV
 
@@ -54,6 +60,55 @@ theorem mul_taylor (x y : List ℝ) (d : ℕ) (hd : d < x.length) :
 
 theorem div_taylor (x y : List ℝ) (hy : co y 0 ≠ 0) (d : ℕ) (hd : d < x.length) :
     co (divS x y) d = tc (fun t => curve x t / curve y t) d := AV.div_taylor x y hy d hd
+
+/-! ## operator level: UTPM ∘ UTPM with NumPy broadcasting of the coefficient shapes -/
+section
+open NdArray
+attribute [local instance] inh0
+
+/-- the operand series that feeds result element `(p, idx)` -/
+noncomputable def opSeries (x : NdArray ℝ) (D p : ℕ) (sx idx : List ℕ) : List ℝ :=
+  (List.range D).map fun d => x.get (d :: p :: bidx sx idx)
+
+theorem opSeries_length (x : NdArray ℝ) (D p : ℕ) (sx idx : List ℕ) : (opSeries x D p sx idx).length = D := by
+  simp [opSeries]
+
+/-- `x * y` on UTPM arrays -/
+theorem utpm_mul_value (x y z : NdArray ℝ) (D P : ℕ) (sx sy s : List ℕ)
+    (hx : x.shape = D :: P :: sx) (hy : y.shape = D :: P :: sy) (hs : broadcastShapes sx sy = some s)
+    (hz : utBin "mul" x y = some z) (p : ℕ) (idx : List ℕ) (hp : p < P) (h : ValidIdx s idx) (d : ℕ) (hd : d < D) :
+    co (seriesAt z p idx) d = tc (curve (opSeries x D p sx idx) * curve (opSeries y D p sy idx)) d := by
+  have hz' : zipS2 mulS x y = some z := hz
+  rw [seriesAt_zipS2_sameDP mulS x y z D P sx sy s hx hy hs hz' p idx hp h, co_map_range _ _ _ hd]
+  exact AV.mul_taylor _ _ d (by rw [List.length_map, List.length_range]; exact hd)
+
+/-- `x / y` on UTPM arrays (`y₀ ≠ 0` at the element) -/
+theorem utpm_div_value (x y z : NdArray ℝ) (D P : ℕ) (sx sy s : List ℕ)
+    (hx : x.shape = D :: P :: sx) (hy : y.shape = D :: P :: sy) (hs : broadcastShapes sx sy = some s)
+    (hz : utBin "div" x y = some z) (p : ℕ) (idx : List ℕ) (hp : p < P) (h : ValidIdx s idx) (d : ℕ) (hd : d < D)
+    (hy0 : co (opSeries y D p sy idx) 0 ≠ 0) :
+    co (seriesAt z p idx) d = tc (fun t => curve (opSeries x D p sx idx) t / curve (opSeries y D p sy idx) t) d := by
+  have hz' : zipS2 divS x y = some z := hz
+  rw [seriesAt_zipS2_sameDP divS x y z D P sx sy s hx hy hs hz' p idx hp h, co_map_range _ _ _ hd]
+  exact AV.div_taylor _ _ hy0 d (by rw [List.length_map, List.length_range]; exact hd)
+
+/-- `x + y`, `x - y` on UTPM arrays: coefficient-wise -/
+theorem utpm_add_sub_value (x y z w : NdArray ℝ) (D P : ℕ) (sx sy s : List ℕ)
+    (hx : x.shape = D :: P :: sx) (hy : y.shape = D :: P :: sy) (hs : broadcastShapes sx sy = some s)
+    (hz : utBin "add" x y = some z) (hw : utBin "sub" x y = some w)
+    (p : ℕ) (idx : List ℕ) (hp : p < P) (h : ValidIdx s idx) (d : ℕ) (hd : d < D) :
+    co (seriesAt z p idx) d = x.get (d :: p :: bidx sx idx) + y.get (d :: p :: bidx sy idx)
+    ∧ co (seriesAt w p idx) d = x.get (d :: p :: bidx sx idx) - y.get (d :: p :: bidx sy idx) := by
+  have hz' : zipS2 addS x y = some z := hz
+  have hw' : zipS2 subS x y = some w := hw
+  rw [seriesAt_zipS2_sameDP addS x y z D P sx sy s hx hy hs hz' p idx hp h,
+    seriesAt_zipS2_sameDP subS x y w D P sx sy s hx hy hs hw' p idx hp h,
+    co_map_range _ _ _ hd, co_map_range _ _ _ hd]
+  have hl : d < ((List.range D).map fun d => x.get (d :: p :: bidx sx idx)).length := by
+    rw [List.length_map, List.length_range]; exact hd
+  rw [addS_co _ _ d hl, subS_co _ _ d hl, co_map_range _ _ _ hd, co_map_range _ _ _ hd]
+  exact ⟨rfl, rfl⟩
+end
 
 /-! ## dtype calculus (finite table) -/
 
